@@ -28,7 +28,34 @@ def run_property(prop: str, tier: str) -> int:
     return finish(ctx, explanation, seed=seed)
 
 
+class _Quiet:
+    """stdout wrapper: a reader that closes the pipe early (``| head``) must not turn the run into an internal error."""
+
+    def __init__(self, fd):
+        self.fd = fd
+        self.dead = False
+
+    def write(self, s):
+        if not self.dead:
+            try:
+                return self.fd.write(s)
+            except BrokenPipeError:
+                self.dead = True
+        return len(s)
+
+    def flush(self):
+        if not self.dead:
+            try:
+                self.fd.flush()
+            except BrokenPipeError:
+                self.dead = True
+
+    def __getattr__(self, name):
+        return getattr(self.fd, name)
+
+
 def main(argv=None) -> int:
+    sys.stdout = _Quiet(sys.stdout)
     ap = argparse.ArgumentParser()
     ap.add_argument("prop")
     ap.add_argument("--tier", default=os.environ.get("VERIF_TIER", "quick"), choices=["quick", "thorough"])
@@ -54,4 +81,10 @@ def main(argv=None) -> int:
 
 
 if __name__ == "__main__":
-    sys.exit(main())
+    rc = main()
+    try:
+        sys.stdout.flush()
+    finally:
+        if getattr(sys.stdout, "dead", False):
+            os._exit(rc)
+    sys.exit(rc)
